@@ -10,35 +10,7 @@ monotone in its fuel: once a run ends within `fuel` iterations, every larger fue
 namespace PetgraphModel.C13.Vf2
 open PetgraphModel
 
-/-- `tryMatch` with the loop fuel as a parameter -/
-def tryMatchF (I : Inst) (sub : Bool) (fuel : Nat) : Bool :=
-  match isomorphisms I sub fuel (M.init I) with
-  | some (_, some _) => true
-  | _ => false
-
-/-- `isoModel` with the loop fuel as a parameter -/
-def isoModelF (I : Inst) (fuel : Nat) : Bool :=
-  if I.g0.n != I.g1.n || I.g0.ecount != I.g1.ecount then false else tryMatchF I false fuel
-
-/-- `subModel` with the loop fuel as a parameter -/
-def subModelF (I : Inst) (fuel : Nat) : Bool :=
-  if I.g0.n > I.g1.n || I.g0.ecount > I.g1.ecount then false else tryMatchF I true fuel
-
-/-- `iterLoop` with the loop fuel (per `next()` call) as a parameter -/
-def iterLoopF (I : Inst) (fuel : Nat) : Nat → M → List (List Nat) → List (List Nat) × Bool
-  | 0, m, acc =>
-    match isomorphisms I true fuel m with
-    | some (_, some _) => (acc.reverse, false)
-    | _ => (acc.reverse, true)
-  | k + 1, m, acc =>
-    match isomorphisms I true fuel m with
-    | some (m', some mp) => iterLoopF I fuel k m' (toAbstract I mp :: acc)
-    | _ => (acc.reverse, true)
-
-/-- `iterModel` with the loop fuel (per `next()` call) as a parameter -/
-def iterModelF (I : Inst) (fuel : Nat) : Option (List (List Nat) × Bool) :=
-  if I.g0.n > I.g1.n || I.g0.ecount > I.g1.ecount then none
-  else some (iterLoopF I fuel (fallingFact I.g1.n I.g0.n + 2) (M.init I) [])
+/- `tryMatchF`, `isoModelF`, `subModelF`, `iterLoopF`, `iterModelF` are defined in `Model/C13Vf2Side.lean`. -/
 
 theorem tryMatch_eq_F (I : Inst) (sub : Bool) : tryMatch I sub = tryMatchF I sub bigFuel := rfl
 
